@@ -156,7 +156,7 @@ theorem c2v_ge_dMax2 (d : Nat) (lon lat : ℝ) (hlat : |lat| < tl) : dMax2 (1 / 
 
 /-- **`c2v_uniform_eqr`** (ℝ, every depth `d ≥ 2`): for ANY position with `|lat| < tl` and ANY plane ordinate `y` with
     `|y| + 1/2^d ≤ 1`, `c2v (ConstantsC2V::new(d)) lon lat` dominates the three true centre-to-vertex distances of the
-    cells of ordinate `y`.  (At depth 1 the uniform statement is false by 0.7 %: `dMax2(1/2) = 0.38997 < π/8 = dE(1/2, 0)`;
+    cells of ordinate `y`.  (At depth 1 the uniform statement is false by 0.7 %: `dMax2(1/2) = 0.38989 < π/8 = dE(1/2, 0)`;
     `envelope_dominates_eqr` covers depth 1 at the cell centres.) -/
 theorem c2v_uniform_eqr (d : Nat) (hd : 2 ≤ d) (lon lat : ℝ) (hlat : |lat| < tl) (y : ℝ) (hy : |y| + 1 / 2 ^ d ≤ 1) :
     max (dN (1 / 2 ^ d) y) (max (dS (1 / 2 ^ d) y) (dE (1 / 2 ^ d) y)) ≤ c2v (Csts.new d) lon lat :=
